@@ -33,7 +33,11 @@ type gctx struct {
 func pick(rng *rand.Rand, xs []string) string { return xs[rng.Intn(len(xs))] }
 
 var insidePool = []string{"a", "b", "c", "d", "e", "x", "y", "tmp", "sub", "all", "pkg", "thing_v1-0-0", "x_v1-0-0", "y_v2-0-1.txt", "readme"}
-var oddPool = []string{"...", ".a", "a.", "..a", "a..", " ", "a b", "\xc3\xa9", "\xff", "~", "-", "a\\b", "..\\", "%2e%2e", "\t", "a:b", "....", ". ."}
+// odd segments: near-misses of "." and "..", and values that mean something to some layer (URL escapes, Windows
+// separators and drive / device names, overlong UTF-8 and Unicode look-alikes of "..", the '*' of os.CreateTemp
+// patterns, shell expansions, the suffixes the updater treats specially)
+var oddPool = []string{"...", ".a", "a.", "..a", "a..", " ", "a b", "\xc3\xa9", "\xff", "~", "-", "a\\b", "..\\", "%2e%2e", "\t", "a:b", "....", ". .",
+	"..%2f", "%2e%2e%2f", "\xc0\xae\xc0\xae", "\xe2\x80\xa4\xe2\x80\xa4", "\xef\xbc\x8e\xef\xbc\x8e", "*", "a*b", "$HOME", "C:", "CON", "x.zip", "y.sig", "..;", ".. ", " .."}
 var decoyPool = []string{"secret", "evil_v6-6-6", "plain.txt", "note.txt", "top.txt", "sub", "new", "new/deep"}
 
 func (g *gctx) staticNames() []string {
@@ -344,15 +348,18 @@ func generate(r *hxlib.Run, emit func(hxlib.Case)) {
 			var ops []string
 			for i := 0; i < 8; i++ {
 				var name string
-				switch rng.Intn(4) {
+				switch rng.Intn(5) {
 				case 0:
 					name = "a\x00/../../" + g.rootName + "-other/x"
 				case 1:
 					name = strings.Repeat("../", g.depth+6) + "etc/c18-never" // stays inside the disposable case directory
 				case 2:
 					name = strings.Repeat("z", 300) + "/../../" + g.rootName + "-other/evil"
-				default:
+				case 3:
 					name = "../" + g.rootName + "-other/" + strings.Repeat("y", 300)
+				default:
+					// NAME_MAX boundary: 255 bytes is a legal name, 256 is not
+					name = strings.Repeat("n", 255+rng.Intn(2)) + "/../../" + g.rootName + "x/" + strings.Repeat("m", 255+rng.Intn(2))
 				}
 				switch comp {
 				case "fst":
